@@ -57,13 +57,16 @@ struct SchedSpec {
     bool weak = false;                 // weak-memory mode (stale reads allowed where C++11 allows them)
     int fault_k = 0;                   // k-th fault point throws (0 = none)
     unsigned fault_mask = ~0u;         // which kinds of fault point count
+    bool fault_std = false;            // the injected exception derives from std::exception (else: a plain struct)
     long step_budget = 20000;
     bool post_unlock = false;          // an additional scheduling point directly after every mutex release
 };
 
-// derived from a standard exception class and carrying a payload, like the exceptions real user code throws: library code that
-// treats std::exception specially (or slices it) is then exercised by every fault plan
-struct InjectedFault : std::runtime_error { int at; explicit InjectedFault(int a) : std::runtime_error("injected fault"), at(a) {} };
+// What a fault point throws.  Two flavours, chosen by the fault plan (SchedSpec::fault_std): a plain struct that is *not* derived from
+// std::exception (library code that only handles std::exception mishandles it), and a class derived from a standard exception with a
+// payload of its own (library code that slices or re-wraps std::exception mishandles that one).  Harness code catches the base.
+struct InjectedFault { int at; };
+struct InjectedStdFault : std::runtime_error, InjectedFault { explicit InjectedStdFault(int a) : std::runtime_error("injected fault"), InjectedFault{a} {} };
 
 struct Result {
     bool violation = false;
@@ -531,7 +534,7 @@ inline void fault_point(unsigned kind) {
     if (!R.active || !R.spec->fault_k || R.faults_off) return;
     if (!(kind & R.spec->fault_mask)) return;
     if (R.faults_need_window && !(R.cur && R.cur->fault_window)) return;
-    if (++R.fault_counter == R.spec->fault_k) { R.res.faults_fired++; throw InjectedFault((int)R.fault_counter); }
+    if (++R.fault_counter == R.spec->fault_k) { R.res.faults_fired++; if (R.spec->fault_std) throw InjectedStdFault((int)R.fault_counter); throw InjectedFault{(int)R.fault_counter}; }
 }
 
 inline void disable_faults() { rt().faults_off = true; }
